@@ -244,7 +244,27 @@ func c08pipeModel(c *Ctx, ruleMirror, ruleHop, ruleState string) {
 			c.OK(rule, cons, pos, "%s", okText)
 		}
 	}
-	for _, pair := range [][2]string{{"A", "B"}, {"B", "A"}, {"G", "B"}, {"A", "G"}, {"G", "H"}, {"M", "A"}, {"F", "A"}, {"A", "F"}, {"PD", "B"}, {"A", "QD"}, {"PD", "QD"}} {
+	pairs := [][2]string{{"A", "B"}, {"B", "A"}, {"G", "B"}, {"A", "G"}, {"G", "H"}, {"M", "A"}, {"F", "A"}, {"A", "F"}, {"PD", "B"}, {"A", "QD"}, {"PD", "QD"}}
+	if c.Thorough {
+		// every ordered pair of the model references
+		have := map[[2]string]bool{}
+		for _, p := range pairs {
+			have[p] = true
+		}
+		var names []string
+		for n := range refs {
+			names = append(names, n)
+		}
+		sort.Strings(names)
+		for _, a := range names {
+			for _, b := range names {
+				if a != b && !have[[2]string{a, b}] {
+					pairs = append(pairs, [2]string{a, b})
+				}
+			}
+		}
+	}
+	for _, pair := range pairs {
 		a, b := refs[pair[0]], refs[pair[1]]
 		cons := "proj.(*SR).NewTransform#pipeline(" + a.label + "→" + b.label + ")"
 		var v, st verdictT
